@@ -151,6 +151,10 @@ class SolverMonitor(taps.Monitor):
             return
         A = vals(Gt)
         B = vals(G0)
+        # a matrix that is not exactly symmetric (the library takes asymmetries below single precision for symmetric and does not
+        # symmetrise them): eigh reads the lower triangles, the Cholesky path multiplies the full matrix - which symmetric matrix is
+        # solved is only defined up to the asymmetry, which enters the bounds as a backward error
+        asym = float(max(np.max(np.abs(A - A.T)) / max(np.max(np.abs(A)), 1e-300), np.max(np.abs(B - B.T)) / max(np.max(np.abs(B)), 1e-300)))
         # documented contract: only the lower triangles are processed
         A = np.tril(A) + np.tril(A, -1).T
         B = np.tril(B) + np.tril(B, -1).T
@@ -169,8 +173,8 @@ class SolverMonitor(taps.Monitor):
         method = kwargs.get('method', args[2] if len(args) > 2 else 'eigh')
         ray = np.array([R.rayleigh(V[n], A, B) for n in range(N)])
         worst = max(R.residual(V[n], ray[n], A, B) for n in range(N))
-        bound(ctx, worst, 1e-14 + 10 * EPS * kappa, 'solver:eigen-equation-residual', method=method, N=N, cond=kappa)
-        tol = 1e-13 + 20 * EPS * kappa
+        bound(ctx, worst, 1e-14 + (10 * EPS + 4 * asym) * kappa, 'solver:eigen-equation-residual', method=method, N=N, cond=kappa, asymmetry=asym)
+        tol = 1e-13 + (20 * EPS + 4 * asym) * kappa
         top = float(np.max(np.abs(ray)))
         bound(ctx, float(np.max(ray[1:] - ray[:-1])), tol * top, 'solver:order-not-descending', method=method, rayleigh=ray)
         a, b = R.pencil_eigenvalues(A, B)
